@@ -7,7 +7,7 @@
    failing ones included: the two sides then report the same failure).  [of_list l] is a fully
    evaluated list seen as a stream, [collect] is List.Eval/ToSlice. *)
 From P2 Require Import Base.Prelude Sem.Num Sem.Syntax Sem.Ops Sem.Lib Lib.Builtins Lib.ListLib
-  Lib.BuiltinsProofs Lib.PipelineProofs Run.C07Run Generated.ValueMethods.
+  Lib.BuiltinsProofs Lib.GroupProofs Lib.StringProofs Lib.MapProofs Lib.MovingProofs Lib.PipelineProofs Run.C07Run Generated.ValueMethods.
 From Coq Require Import Permutation Sorted.
 Local Open Scope Z_scope.
 
@@ -201,6 +201,144 @@ Theorem C07_replace_absent_invisible : forall reps m,
   (forall k, assoc_v k m <> None -> assoc_v k r <> None).
 Proof. exact (fun reps m => conj (replace_absent_invisible reps m) (replace_present reps m)). Qed.
 
+(* groupBy* / unique*: the implementation model's answer ALWAYS passes the checker (so the checker verdict
+   on the implementation is implied by implementation = model).  Keys live in any type K with a boolean
+   equivalence eqk that the = of the language decides on embedded keys (K = Z, inj = VInt for
+   groupByInt/uniqueInt; K = str, inj = VStr for groupByString/uniqueString): whenever the key function
+   answers such keys, the model answers a grouping, never a failure. *)
+Theorem C07_groupBy_model_passes_checker : forall (K : Type) (eqk : K -> K -> bool) (inj : K -> value),
+  (forall a b, veq (inj a) (inj b) = Ok (eqk a b)) ->
+  forall key : value -> K,
+  (forall a, eqk a a = true) -> (forall a b, eqk a b = eqk b a) ->
+  (forall a b c, eqk a b = true -> eqk b c = true -> eqk a c = true) ->
+  forall eqA : value -> value -> bool, (forall a, eqA a a = true) ->
+  forall (keyf : value -> res value) (l : list value),
+  (forall x, In x l -> keyf x = Ok (inj (key x))) ->
+  exists gs, group_all keyf [] l = Ok (map (injg inj) gs) /\
+             check_groups eqA eqk (keyb eqk key) l gs = true.
+Proof. exact (@group_model_passes_checker). Qed.
+
+Theorem C07_unique_model_passes_checker : forall (K : Type) (eqk : K -> K -> bool) (inj : K -> value),
+  (forall a b, veq (inj a) (inj b) = Ok (eqk a b)) ->
+  forall key : value -> K,
+  (forall a, eqk a a = true) -> (forall a b, eqk a b = eqk b a) ->
+  forall (keyf : value -> res value) (l : list value),
+  (forall x, In x l -> keyf x = Ok (inj (key x))) ->
+  exists ks, m_unique keyf l = Ok (map inj ks) /\ check_unique eqk (keyb eqk key) l ks = true.
+Proof. exact (@unique_model_passes_checker). Qed.
+
+(* completeness of check_groups (the converse of C07_check_groups_sound) *)
+Theorem C07_check_groups_complete : forall (A K : Type) (eqk : K -> K -> bool) (key : A -> K) (eqA : A -> A -> bool),
+  (forall a, eqA a a = true) ->
+  forall inp gs,
+  (forall g, In g gs -> snd g <> [] /\ snd g = filter (fun x => keyb eqk key x (fst g)) inp) ->
+  nodup_b eqk (map fst gs) = true ->
+  length (concat (map snd gs)) = length inp ->
+  check_groups eqA eqk (keyb eqk key) inp gs = true.
+Proof. exact (@check_groups_complete). Qed.
+
+(* minMax: implementation model and documented model (the first item with the minimal / maximal value of
+   f, found by two folds) give the same map, or both fail (which failure comes first is not fixed) *)
+Theorem C07_minMax_spec : forall f l, same_outcome (t_minMax f (of_list l)) (d_minMax f l).
+Proof. exact minMax_spec. Qed.
+
+(* strings, second family: split and join are inverse, replace = split at old and join with new,
+   contains = there is an occurrence, trim (ASCII) removes exactly the leading and trailing blanks,
+   toLower/toUpper (ASCII) keep the length and are idempotent *)
+Theorem C07_string_specs2 :
+  (* split_join *)
+  (forall s sep, sep <> [] -> d_join sep (str_split s sep) = s) /\
+  (* split_empty_sep *)
+  (forall s, str_split s [] = map (fun c => [c]) s /\ concat (str_split s []) = s) /\
+  (* replace_split_join *)
+  (forall s old new, old <> [] -> str_replace s old new = d_join new (str_split s old)) /\
+  (* replace_empty_old *)
+  (forall s new, str_replace s [] new = new ++ flat_map (fun c => c :: new) s) /\
+  (* contains_spec *)
+  (forall s p, contains_str s p = true <-> exists pre post, s = pre ++ p ++ post) /\
+  (* trim_spec *)
+  (forall s t, str_trim s = Ok t ->
+     exists a b, s = a ++ t ++ b /\ forallb is_space a = true /\ forallb is_space b = true /\
+     match t with c :: _ => is_space c = false | [] => True end /\
+     match rev t with c :: _ => is_space c = false | [] => True end) /\
+  (* lower_upper_spec *)
+  (forall s t,
+     (str_lower s = Ok t -> length t = length s /\ str_lower t = Ok t) /\
+     (str_upper s = Ok t -> length t = length s /\ str_upper t = Ok t)).
+Proof. exact (conj split_join (conj split_empty_sep (conj replace_split_join (conj replace_empty_old (conj contains_spec (conj trim_spec lower_upper_spec)))))). Qed.
+
+(* maps: the implementation model (entry lists in iteration order, pairwise different keys) against finite
+   maps in canonical key-sorted form: get, size, isAvail, put, + (merge), replace agree lookup by lookup;
+   map / accept / combine / list keep keys and order *)
+Theorem C07_map_specs :
+  (* get *)
+  (forall m k, keys_nodup m ->
+     mm_get m k = match fm_get k (fm_canon m) with Some v => Ok v | None => Err None end) /\
+  (* size *)
+  (forall m, keys_nodup m -> length m = length (fm_canon m)) /\
+  (* isAvail *)
+  (forall m ks, keys_nodup m ->
+     mm_isAvail m (map VStr ks) =
+     Ok (VBool (forallb (fun k => match fm_get k (fm_canon m) with Some _ => true | None => false end) ks))) /\
+  (* put *)
+  (forall m k v, keys_nodup m ->
+     match mm_put m k v, fm_put (fm_canon m) k v with
+     | Ok m1, Ok c1 => keys_nodup m1 /\ forall k', assoc_v k' m1 = fm_get k' c1
+     | Err _, Err _ => True
+     | _, _ => False
+     end) /\
+  (* merge *)
+  (forall a b, keys_nodup a -> keys_nodup b ->
+     match mm_merge a b, fm_merge (fm_canon a) b with
+     | Ok m1, Ok c1 => forall k', assoc_v k' m1 = fm_get k' c1
+     | Err _, Err _ => True
+     | _, _ => False
+     end) /\
+  (* replace *)
+  (forall m rep k, keys_nodup m -> keys_nodup rep ->
+     assoc_v k (mm_replace_with m rep) = fm_get k (fm_replace (fm_canon m) (fm_canon rep))) /\
+  (* map *)
+  (forall f m m', mm_map f m = Ok m' ->
+     map fst m' = map fst m /\
+     Forall2 (fun kv kv' => f (VStr (fst kv)) (snd kv) = Ok (snd kv')) m m') /\
+  (* accept *)
+  (forall (p : str -> value -> bool) f m,
+     (forall k v, f (VStr k) v = Ok (VBool (p k v))) ->
+     mm_accept f m = Ok (filter (fun kv => p (fst kv) (snd kv)) m)) /\
+  (* combine *)
+  (forall f m other r, mm_combine f m other = Ok r ->
+     map fst r = map fst m /\
+     Forall2 (fun kv kv' => exists o, assoc_v (fst kv) other = Some o /\ f (snd kv) o = Ok (snd kv')) m r) /\
+  (* list *)
+  (forall m, mm_list m = map (fun kv => VMap [(Names.nm_key, VStr (fst kv)); (Names.nm_value, snd kv)]) m /\
+             length (mm_list m) = length m).
+Proof. exact (conj map_get_spec (conj map_size_spec (conj map_isAvail_spec (conj map_put_spec (conj map_merge_spec (conj map_replace_spec (conj map_map_spec (conj map_accept_spec (conj map_combine_spec map_list_spec))))))))). Qed.
+
+(* movingWindow: for keys that do not decrease along the list the Go loop (start index only moves
+   forward) answers, for every item, all items up to it whose key is within 1 of its key.  Keys in any
+   ordered type K embedded into the floats such that the exact comparison decides "more than 1 apart"
+   (far), with: an item further left is at least as far, and what is too far from an earlier key is too
+   far from a later one.  The full statement (any key order) is refuted: keys 0, 2, 1. *)
+Theorem C07_movingWindow_nondecreasing_partial :
+  forall (K : Type) (far : K -> K -> bool) (inj : K -> fl),
+  (forall a b, far_apart (inj a) (inj b) = Ok (far a b)) ->
+  forall leK : K -> K -> bool,
+  (forall a, far a a = false) ->
+  (forall a b c, leK a b = true -> leK b c = true -> far c b = true -> far c a = true) ->
+  (forall a b c, leK a b = true -> leK b c = true -> far b a = true -> far c a = true) ->
+  forall kl : list (K * value), sorted_keys leK kl ->
+  mw_loop [] (map (injw inj) kl) = Ok (d_movingWindow (close far) kl).
+Proof. exact (@movingWindow_nondecreasing). Qed.
+
+(* the hypotheses are satisfiable: integer keys with |a - b| > 1 *)
+Theorem C07_movingWindow_int_keys : forall kl : list (Z * value), sorted_keys Z.leb kl ->
+  pw_loop farZ [] kl = d_movingWindow (close farZ) kl.
+Proof. exact movingWindow_int_keys. Qed.
+
+Theorem C07_movingWindow_any_order_refuted :
+  exists l, m_movingWindow (fun x => Ok x) l <> doc_windows (fun x => Ok x) l.
+Proof. exact movingWindow_decreasing_refuted. Qed.
+
 (* non-vacuity: a pipeline with a failing callback behind a truncating stage, and the repaired corners *)
 Example C07_nonvacuous_lazy :
   collect (s_top 1 (s_map (fun x => match x with VInt 1 => Ok x | _ => Err None end) (of_list [VInt 1; VInt 2])))
@@ -234,3 +372,12 @@ Print Assumptions C07_check_groups_sound.
 Print Assumptions C07_string_specs.
 Print Assumptions C07_misuse_is_error.
 Print Assumptions C07_replace_absent_invisible.
+Print Assumptions C07_groupBy_model_passes_checker.
+Print Assumptions C07_unique_model_passes_checker.
+Print Assumptions C07_check_groups_complete.
+Print Assumptions C07_minMax_spec.
+Print Assumptions C07_string_specs2.
+Print Assumptions C07_map_specs.
+Print Assumptions C07_movingWindow_nondecreasing_partial.
+Print Assumptions C07_movingWindow_int_keys.
+Print Assumptions C07_movingWindow_any_order_refuted.
